@@ -22,6 +22,7 @@ def make(ids, data=DATA_ALL, ends=END_ALL, passwords=tuple(proto.PASSWORDS), rep
                 evs.append(('C', i))
                 if alt_announce:
                     evs.append(('C2', i))     # the same id from another address/port
+                    evs.append(('C3', i))     # ... from the same address, another port
             if inst is None:
                 if dead_probes:
                     # lines for an id that is not live must be ignored: one disconnect and one data line as probes,
